@@ -557,7 +557,11 @@ func finish(p *propDef, id, tier string, seed int, t0 time.Time, njobs int, m *m
 	}
 	bs, _ := json.MarshalIndent(ev, "", " ")
 	os.MkdirAll(filepath.Join(verifDir, "evidence"), 0755)
-	if os.Getenv("VERIF_NO_EVIDENCE") == "" {
+	if d := os.Getenv("VERIF_EVIDENCE_DIR"); d != "" {
+		// an extra copy elsewhere (used to keep a thorough-tier record next to the quick-tier evidence)
+		os.MkdirAll(d, 0755)
+		os.WriteFile(filepath.Join(d, id+".json"), bs, 0644)
+	} else if os.Getenv("VERIF_NO_EVIDENCE") == "" {
 		os.WriteFile(filepath.Join(verifDir, "evidence", id+".json"), bs, 0644)
 	}
 
